@@ -13,6 +13,6 @@ mp = os.path.join(src, "meta.json")
 if os.path.exists(mp):
     m = json.load(open(mp))
 m.update({"seeded_id": sid, "checked_with": "./vcheck run %s" % check, "detected": detected, "note": note,
-          "confirmed": "patch applies to /repo HEAD, project builds, demonstration fails with the patch and passes without it (confirmed in a scratch worktree); check run with the patch applied via `git -C /repo apply`, then reverted"})
+          "confirmed": "patch applies to /repo HEAD, project builds, demonstration fails with the patch and passes without it (confirmed in a scratch worktree); check run against a scratch worktree with the patch applied (tools/trymut.sh; VERIF_REPO), /repo untouched"})
 json.dump(m, open(os.path.join(dst, "meta.json"), "w"), indent=1)
 print("kept", dst)
